@@ -674,7 +674,7 @@ def _do_step(step, ctx_box, root, ref, fails, happy):
         raise ValueError(step)
 
 
-def _check_committed_name(ctx, name, ref, fails, cl_model, cl_res):
+def _check_committed_name(ctx, name, ref, fails, cl_model, cl_res, what='', fid=None):
     """a committed name must be retrievable and equal; returns True when fine"""
     E = _entries()
     label = ref.names[name]
@@ -684,15 +684,16 @@ def _check_committed_name(ctx, name, ref, fails, cl_model, cl_res):
     try:
         got = ctx.retrieve_model_entry(name)
     except Exception as e:
-        fails.add(FID_CTX_RETR, cl_model, f'retrieve_model_entry({name!r}) of stored entry {label} raised {_exc_str(e)}')
+        fails.add(fid or FID_CTX_RETR, cl_model,
+                  f'{what}retrieve_model_entry({name!r}) of stored entry {label} raised {_exc_str(e)}')
         return False
     md, rd = _entry_diff(E[label], got, expected_description=ref.desc[name])
     if md:
-        fails.add(FID_CTX_RETR, cl_model, f'entry {label} retrieved as {name!r}: ' + '; '.join(md))
+        fails.add(fid or FID_CTX_RETR, cl_model, f'{what}entry {label} retrieved as {name!r}: ' + '; '.join(md))
     if rd:
         if label == 'L':
             cl_res = CL_RT_ENTRYLOG
-        fails.add(FID_RETR_ENTRY, cl_res, f'entry {label} retrieved as {name!r}: ' + '; '.join(rd))
+        fails.add(fid or FID_RETR_ENTRY, cl_res, f'{what}entry {label} retrieved as {name!r}: ' + '; '.join(rd))
     return not md and not rd
 
 
@@ -702,18 +703,28 @@ def _key_shared(label, ref):
     return [n for n, lab in ref.names.items() if lab in same]
 
 
-def _check_committed_key(db, label, ref, fails, clause):
+_KEYS = {}
+_FULL = True  # False in the quick tier: fewer redundant reads after a crash
+
+
+def _key_of(label):
     from pharmpy.workflows.hashing import ModelHash
 
+    if label not in _KEYS:
+        _KEYS[label] = ModelHash(_entries()[label].model)
+    return _KEYS[label]
+
+
+def _check_committed_key(db, label, ref, fails, clause, what='', fid=None):
     E = _entries()
     try:
-        got = db.retrieve_model_entry(ModelHash(E[label].model))
+        got = db.retrieve_model_entry(_key_of(label))
     except Exception as e:
-        fails.add(FID_RETR_ENTRY, clause, f'retrieve by key of stored entry {label} raised {_exc_str(e)}')
+        fails.add(fid or FID_RETR_ENTRY, clause, f'{what}retrieve by key of stored entry {label} raised {_exc_str(e)}')
         return False
     md, rd = _entry_diff(E[label], got, name=False, description=len(_key_shared(label, ref)) <= 1)
     if md or rd:
-        fails.add(FID_RETR_ENTRY, clause, f'entry {label} by key: ' + '; '.join(md + rd))
+        fails.add(fid or FID_RETR_ENTRY, clause, f'{what}entry {label} by key: ' + '; '.join(md + rd))
     return not md and not rd
 
 
@@ -742,7 +753,7 @@ def _probe_uncommitted(ctx, db, label, ref_desc_options, fails, fid, clause, wha
             ok = False
             fails.add(fid, clause, f'{what}: reader of name {name!r} obtained a different entry: ' + '; '.join(best))
     try:
-        gotk = db.retrieve_model_entry(ModelHash(me.model))
+        gotk = db.retrieve_model_entry(_key_of(label))
     except Exception:
         gotk = None
     if gotk is not None:
@@ -766,27 +777,29 @@ def _fs_listing(root):
     return sorted(out)
 
 
-def _run_case(steps, crash_at, mode, torn, post, collect_trace=False):
-    """Run one workload (with an optional crash) and evaluate the contracts.
+class _Run:
+    pass
 
-    returns dict(fails=[...], nops=int, trace=[...], hit=..., crashed_step=...)"""
-    from pharmpy.workflows.hashing import ModelHash
 
+def _run_workload(steps, crash_at, mode, torn, post):
+    """Run one workload on the real code under the fault-injecting file system (with an optional
+    crash).  The directory tree is left in place (run.root) for the checks after the restart."""
     E = _entries()
-    case = {'steps': steps, 'crash_at': crash_at, 'mode': mode, 'torn': torn, 'post': post}
-    fails = _Fails(case)
-    root = tempfile.mkdtemp(prefix='bdb_')
-    fs = FaultFS(root)
-    ref = _Ref()
+    run = _Run()
+    run.case = {'steps': steps, 'crash_at': crash_at, 'mode': mode, 'torn': torn, 'post': post}
+    run.fails = fails = _Fails(run.case)
+    run.root = root = tempfile.mkdtemp(prefix='bdb_')
+    run.fs = fs = FaultFS(root)
+    run.ref = ref = _Ref()
+    run.crashed_step = None
+    run.steps, run.post = steps, post
     ctx_box = [None]
-    crashed_step = None
-    sink = io.StringIO()
     happy = crash_at is None
     snapshots = {}
     try:
         fs.install()
         fs.arm(crash_at, mode, torn)
-        with contextlib.redirect_stdout(sink), contextlib.redirect_stderr(sink):
+        with contextlib.redirect_stdout(io.StringIO()), contextlib.redirect_stderr(io.StringIO()):
             for i, step in enumerate(steps):
                 hit_before = fs.hit
                 if step[0] in ('store', 'txn'):
@@ -795,29 +808,72 @@ def _run_case(steps, crash_at, mode, torn, post, collect_trace=False):
                     _do_step(step, ctx_box, root, ref, fails, happy)
                 except BaseException as e:
                     if fs.hit is not None and hit_before is None:
-                        crashed_step = i
+                        run.crashed_step = i
                         break
                     if isinstance(e, (KeyboardInterrupt, SystemExit)):
                         raise
                     fails.add(_fid_of_step(step), CL_NOERR,
                               f'step {step} raised {_exc_str(e)} :: ' + traceback.format_exc()[-300:])
-                    crashed_step = i
+                    run.crashed_step = i
                     break
                 if step[0] in ('store', 'txn') and snapshots[step[1]] != _entry_fingerprint(E[step[1]]):
                     fails.add(FID_STORE_MODEL, CL_FRAME, f'entry {step[1]} changed during step {step}')
-            nops_workload = fs.n
-            trace = list(fs.trace)
-            # ---------------------------------------------------------------- restart
-            fs.restart()
-            if happy and crashed_step is None:
-                _final_happy_checks(root, ref, fails)
-            elif fs.hit is not None:
-                _post_crash_checks(root, steps, crashed_step, ref, fails, post, fs)
     finally:
         fs.uninstall()
-        shutil.rmtree(root, ignore_errors=True)
-    return {'fails': fails.items, 'nops': nops_workload, 'trace': trace if collect_trace else None,
-            'hit': fs.hit, 'crashed_step': crashed_step}
+    run.trace = list(fs.trace)
+    fs.restart()
+    return run
+
+
+def _run_checks(run):
+    """restart: fresh objects on the tree left by the workload, evaluate the contracts"""
+    with contextlib.redirect_stdout(io.StringIO()), contextlib.redirect_stderr(io.StringIO()):
+        if run.case['crash_at'] is None:
+            if run.crashed_step is None:
+                _final_happy_checks(run.root, run.ref, run.fails)
+        elif run.fs.hit is not None:
+            _post_crash_checks(run.root, run.steps, run.crashed_step, run.ref, run.fails, run.post, run.fs)
+
+
+def _run_case(steps, crash_at, mode, torn, post, collect_trace=False):
+    """Run one workload (with an optional crash) and evaluate the contracts."""
+    run = _run_workload(steps, crash_at, mode, torn, post)
+    try:
+        _run_checks(run)
+    finally:
+        shutil.rmtree(run.root, ignore_errors=True)
+    return {'fails': run.fails.items, 'nops': len(run.trace), 'trace': run.trace if collect_trace else None,
+            'hit': run.fs.hit, 'crashed_step': run.crashed_step}
+
+
+_TS = re.compile(rb'\d{4}-\d\d-\d\d \d\d:\d\d:\d\d(\.\d+)?')
+
+
+def _tree_digest(root):
+    """content digest of the directory tree (root path and log time stamps normalised)"""
+    import hashlib
+
+    h = hashlib.sha256()
+    rb = root.encode()
+    for r, ds, fs_ in os.walk(root):
+        ds.sort()
+        rel = r[len(root):]
+        h.update(b'D' + rel.encode() + b'\0')
+        for d in list(ds):
+            p = os.path.join(r, d)
+            if os.path.islink(p):
+                h.update(b'L' + d.encode() + b'>' + os.readlink(p).encode() + b'\0')
+        for f in sorted(fs_):
+            p = os.path.join(r, f)
+            if os.path.islink(p):
+                h.update(b'L' + f.encode() + b'>' + os.readlink(p).encode() + b'\0')
+                continue
+            with open(p, 'rb') as fh:
+                data = fh.read().replace(rb, b'<ROOT>')
+            if f == 'log.csv':
+                data = _TS.sub(b'<T>', data)
+            h.update(b'F' + f.encode() + b'\0' + str(len(data)).encode() + b'\0' + data)
+    return h.hexdigest()
 
 
 def _fid_of_step(step):
@@ -864,28 +920,44 @@ def _final_happy_checks(root, ref, fails):
         fails.add(FID_MSG, CL_MSG, f'logged {ref.msgs!r}, retrieve_log raised {_exc_str(e)}')
 
 
+def _blame(hit, step, default):
+    """the function whose file-system operation was interrupted (for attributing a violation)"""
+    if hit is None:
+        return default
+    rel = hit[1]
+    if rel == '/ctx/annotations':
+        return FID_CTX_INIT if step is not None and step[0] == 'ctx' else FID_ANN
+    if rel == '/ctx/log.csv':
+        return FID_CTX_INIT if step is not None and step[0] == 'ctx' else FID_MSG
+    if '/.datasets' in rel:
+        return FID_STORE_MODEL
+    if rel.startswith('/ctx/models/'):
+        return FID_STORE_KEY
+    if rel.startswith('/ctx/.modeldb/'):
+        return FID_TXN
+    return default
+
+
 def _post_crash_checks(root, steps, ci, ref, fails, post, fs):
     """the contracts of the property after a crash in step `ci` (None: the faulted operation was
     absorbed and every step returned normally, then everything counts as committed)"""
-    from pharmpy.workflows.hashing import ModelHash
-
     E = _entries()
     step = steps[ci] if ci is not None else None
-    what = f'{fs.mode} crash{" (torn write)" if fs.torn else ""} at file-system op #{fs.hit_index} {fs.hit} in step {step}'
+    what = (f'{fs.mode} crash{" (torn write)" if fs.torn else ""} at file-system op #{fs.hit_index} '
+            f'{fs.hit} in step {step}: ')
+    default = _fid_of_step(step) if step is not None else FID_TXN
+    fid = _blame(fs.hit, step, default)
     try:
         ctx = _open_ctx(root)
         db = _open_db(root)
     except Exception as e:
-        fails.add(FID_CTX_INIT, CL_K_REOPEN, f'{what}: re-opening the context raised {_exc_str(e)}')
+        fails.add(fid, CL_K_REOPEN, f'{what}re-opening the context raised {_exc_str(e)}')
         return
-    if step is not None and step[0] == 'ctx':
-        # nothing was committed; the re-opened context must be usable (checked below)
-        pass
     # (1) the interrupted entry
     crashed_label = step[1] if step is not None and step[0] in ('store', 'txn') else None
     if crashed_label is not None:
         _probe_uncommitted(ctx, db, crashed_label, [E[crashed_label].model.description], fails,
-                           FID_TXN, CL_K_PARTIAL, what, ref)
+                           fid, CL_K_PARTIAL, what, ref)
     if step is not None and step[0] == 'ann':
         name = E[step[1]].model.name
         if name in ref.names:
@@ -895,22 +967,24 @@ def _post_crash_checks(root, steps, ci, ref, fails, post, fs):
             except Exception:
                 got = None
             if got is not None and got.model.description not in (old, new):
-                fails.add(FID_ANN, CL_K_ANN, f'{what}: description of {name!r} is {got.model.description!r}, '
-                                              f'old {old!r}, new {new!r}')
+                fails.add(fid, CL_K_ANN, f'{what}description of {name!r} is {got.model.description!r}, '
+                                         f'old {old!r}, new {new!r}')
             if got is not None and got.model.description == new:
                 ref.desc[name] = new
             # (a reader that gets an exception here is reported by the next clause: the entry was
             # committed earlier and must stay retrievable)
     # (2) entries committed earlier
-    for name in sorted(ref.names):
-        _check_committed_name(ctx, name, ref, fails, CL_K_EARLIER, CL_K_EARLIER)
-        _check_committed_key(db, ref.names[name], ref, fails, CL_K_EARLIER)
+    committed = sorted(ref.names)
+    for name in committed:
+        _check_committed_name(ctx, name, ref, fails, CL_K_EARLIER, CL_K_EARLIER, what, fid)
+        if _FULL:  # (by name goes through the same key directory; by key only in the thorough tier)
+            _check_committed_key(db, ref.names[name], ref, fails, CL_K_EARLIER, what, fid)
     # (3) visible subset of committed
     try:
         listed = list(ctx.list_all_names())
     except Exception as e:
         listed = []
-        fails.add(FID_STORE_KEY, CL_K_VISIBLE, f'{what}: list_all_names raised {_exc_str(e)}')
+        fails.add(fid, CL_K_VISIBLE, f'{what}list_all_names raised {_exc_str(e)}')
     for name in listed:
         if name in ref.names:
             continue  # checked above
@@ -924,8 +998,8 @@ def _post_crash_checks(root, steps, ci, ref, fails, post, fs):
             md, rd = _entry_diff(E[lab], got)
             okay = okay or not (md or rd)
         if not okay:
-            fails.add(FID_STORE_KEY, CL_K_VISIBLE,
-                      f'{what}: listed name {name!r} retrieves an entry that was never stored under it')
+            fails.add(fid, CL_K_VISIBLE,
+                      f'{what}listed name {name!r} retrieves an entry that was never stored under it')
     # (4) log messages
     pending = None
     if step is not None and step[0] == 'log':
@@ -935,21 +1009,20 @@ def _post_crash_checks(root, steps, ci, ref, fails, post, fs):
         fine = _same_msgs(got, ref.msgs) or (pending is not None and _same_msgs(got, ref.msgs + [pending]))
         if fine and pending is not None and len(got) == len(ref.msgs) + 1:
             ref.msgs.append(pending)
+            pending = None
         if not fine:
-            fails.add(FID_MSG, CL_K_MSGS, f'{what}: committed {ref.msgs!r}, in progress {pending!r}, retrieved {got!r}')
+            fails.add(fid, CL_K_MSGS, f'{what}committed {ref.msgs!r}, in progress {pending!r}, retrieved {got!r}')
     except Exception as e:
-        fine = False
-        fails.add(FID_MSG, CL_K_MSGS, f'{what}: committed {ref.msgs!r}, retrieve_log raised {_exc_str(e)}')
+        fails.add(fid, CL_K_MSGS, f'{what}committed {ref.msgs!r}, retrieve_log raised {_exc_str(e)}')
+    new_msg = ('warning', 'after restart, "quoted"')
     try:
-        ctx.log_warning('after restart, "quoted"')
+        ctx.log_warning(new_msg[1])
         got = _retrieve_log_msgs(ctx)
-        want = ref.msgs + [('warning', 'after restart, "quoted"')]
-        alt = ref.msgs + ([pending] if pending else []) + [('warning', 'after restart, "quoted"')]
-        if not (_same_msgs(got, want) or _same_msgs(got, alt)):
-            fails.add(FID_MSG, CL_K_LOGWRITE, f'{what}: expected {want!r}, retrieved {got!r}')
+        if not _same_msgs(got, ref.msgs + [new_msg]):
+            fails.add(fid, CL_K_LOGWRITE, f'{what}expected {ref.msgs + [new_msg]!r}, retrieved {got!r}')
     except Exception as e:
-        fails.add(FID_MSG, CL_K_LOGWRITE, f'{what}: log_warning / retrieve_log raised {_exc_str(e)}')
-    # (5) other stores: first a model with a fresh dataset, then models sharing datasets
+        fails.add(fid, CL_K_LOGWRITE, f'{what}log_warning / retrieve_log raised {_exc_str(e)}')
+    # (5) other stores (in the order given by `post`)
     group = _DATASET_GROUP.get(crashed_label)
     stored_labels = set(ref.names.values())
     candidates = [lab for lab in post if lab != crashed_label and lab not in stored_labels
@@ -962,28 +1035,22 @@ def _post_crash_checks(root, steps, ci, ref, fails, post, fs):
         try:
             ctx.store_model_entry(me)
         except Exception as e:
-            fails.add(FID_STORE_MODEL, cl_ok, f'{what}: then store of {lab} raised {_exc_str(e)}')
+            fails.add(fid, cl_ok, f'{what}then store of {lab} raised {_exc_str(e)}')
             continue
-        ref.names[me.model.name] = lab
-        ref.desc[me.model.name] = me.model.description
         try:
-            ctx2 = _open_ctx(root)
-            got = ctx2.retrieve_model_entry(me.model.name)
+            got = _open_ctx(root).retrieve_model_entry(me.model.name)
         except Exception as e:
-            fails.add(FID_STORE_MODEL, cl_eq, f'{what}: then stored {lab}, retrieving it raised {_exc_str(e)}')
+            fails.add(fid, cl_eq, f'{what}then stored {lab}, retrieving it raised {_exc_str(e)}')
             continue
         md, rd = _entry_diff(me, got)
         if md or rd:
-            fails.add(FID_STORE_MODEL, cl_eq, f'{what}: then stored {lab}, retrieved differs: ' + '; '.join(md + rd))
+            fails.add(fid, cl_eq, f'{what}then stored {lab}, retrieved differs: ' + '; '.join(md + rd))
     # (6) retry of the interrupted store
     if crashed_label is not None:
         me = E[crashed_label]
         returned = False
         try:
-            if step[0] == 'store':
-                ctx.store_model_entry(me)
-            else:
-                _do_step(step, [ctx], root, _Ref(), fails, False)
+            _do_step(step, [ctx], root, _Ref(), fails, False)
             returned = True
         except Exception:
             pass
@@ -991,15 +1058,19 @@ def _post_crash_checks(root, steps, ci, ref, fails, post, fs):
         if returned:
             ref.names[me.model.name] = crashed_label
             ref.desc[me.model.name] = me.model.description
-            _check_committed_name(ctx3, me.model.name, ref, fails, CL_K_RETRY_OK, CL_K_RETRY_OK)
-            _check_committed_key(db3, crashed_label, ref, fails, CL_K_RETRY_OK)
+            _check_committed_name(ctx3, me.model.name, ref, fails, CL_K_RETRY_OK, CL_K_RETRY_OK,
+                                  what + 'then the retried store returned normally: ', fid)
+            _check_committed_key(db3, crashed_label, ref, fails, CL_K_RETRY_OK,
+                                 what + 'then the retried store returned normally: ', fid)
+            del ref.names[me.model.name]
         else:
-            _probe_uncommitted(ctx3, db3, crashed_label, [me.model.description], fails, FID_TXN, CL_K_RETRY,
-                               what + ', then retried store raised', ref)
-    # (7) earlier entries are still intact after all of that
-    ctx4, db4 = _open_ctx(root), _open_db(root)
-    for name in sorted(ref.names):
-        _check_committed_name(ctx4, name, ref, fails, CL_K_EARLIER, CL_K_EARLIER)
+            _probe_uncommitted(ctx3, db3, crashed_label, [me.model.description], fails, fid, CL_K_RETRY,
+                               what + 'then the retried store raised: ', ref)
+    # (7) entries committed before the crash are still intact after all of that
+    ctx4 = _open_ctx(root)
+    for name in committed:
+        _check_committed_name(ctx4, name, ref, fails, CL_K_EARLIER, CL_K_EARLIER,
+                              what + 'after the follow-up stores: ', fid)
 
 
 # --- enumeration ---------------------------------------------------------------------------
@@ -1043,18 +1114,50 @@ def _crash_workloads(tier):
     return [_W_QUICK] if tier == 'quick' else [_W_QUICK] + _W_THOROUGH
 
 
-def _worker(args):
+def _checker_error(args, e):
     steps, crash_at, mode, torn, post = args
+    case = {'steps': steps, 'crash_at': crash_at, 'mode': mode, 'torn': torn, 'post': post,
+            'fid': 'contracts/b_db.py:_run_case', 'clause': 'checker runs to completion'}
+    return {'fid': case['fid'], 'clause': case['clause'],
+            'detail': _exc_str(e) + ' :: ' + traceback.format_exc()[-600:], 'case': case,
+            'replay_fn': 'bounded_store_crash_replay'}
+
+
+def _worker(args):
+    """one fault-free workload, or one crash point in BOTH modes (exception, process death);
+    the checks after the restart are evaluated once per distinct resulting directory tree"""
+    steps, crash_at, mode, torn, post = args
+    out = {'args': args, 'fails': [], 'cases': 0, 'nontrivial': 0, 'distinct': 0}
+    modes = ['exc'] if crash_at is None else ['exc', 'kill']
+    runs = []
     try:
-        out = _run_case(steps, crash_at, mode, torn, post)
-        return {'args': args, 'fails': out['fails'], 'hit': out['hit'], 'crashed_step': out['crashed_step']}
-    except BaseException as e:  # checker error: surfaces as a failing case, never silently dropped
-        case = {'steps': steps, 'crash_at': crash_at, 'mode': mode, 'torn': torn, 'post': post,
-                'fid': 'contracts/b_db.py:_run_case', 'clause': 'checker runs to completion'}
-        return {'args': args, 'hit': None, 'crashed_step': None,
-                'fails': [{'fid': case['fid'], 'clause': case['clause'],
-                           'detail': _exc_str(e) + ' :: ' + traceback.format_exc()[-600:], 'case': case,
-                           'replay_fn': 'bounded_store_crash_replay'}]}
+        for m in modes:
+            out['cases'] += 1
+            a = (steps, crash_at, m, torn, post)
+            try:
+                run = _run_workload(steps, crash_at, m, torn, post)
+            except BaseException as e:  # checker error: reported as a failing case, never dropped
+                out['fails'].append(_checker_error(a, e))
+                continue
+            runs.append(run)
+            if crash_at is None or run.fs.hit is not None:
+                out['nontrivial'] += 1
+            run.digest = (_tree_digest(run.root), run.crashed_step, run.fs.hit)
+        seen = set()
+        for run in runs:
+            if run.digest not in seen:
+                seen.add(run.digest)
+                out['distinct'] += 1
+                try:
+                    _run_checks(run)
+                except BaseException as e:
+                    c = run.case
+                    out['fails'].append(_checker_error((c['steps'], c['crash_at'], c['mode'], c['torn'], c['post']), e))
+            out['fails'].extend(run.fails.items)
+    finally:
+        for run in runs:
+            shutil.rmtree(run.root, ignore_errors=True)
+    return out
 
 
 def _case_size(case):
@@ -1065,12 +1168,16 @@ def _case_size(case):
 def bounded_store_crash(tier):
     import multiprocessing
 
+    global _FULL
     _entries()  # import pharmpy and build the entries once, before forking
+    _FULL = tier != 'quick'
+    for lab in _entries():
+        _key_of(lab)
     jobs = []
     post0 = _POST_ORDERS[tier][0]
     for w in _happy_workloads(tier):
         jobs.append((w, None, 'exc', False, post0))
-    ncrash = 0
+    nhappy = len(jobs)
     opcounts = []
     for w in _crash_workloads(tier):
         probe = _run_case(w, None, 'exc', False, post0, collect_trace=True)
@@ -1078,38 +1185,38 @@ def bounded_store_crash(tier):
         opcounts.append(len(trace))
         for post in _POST_ORDERS[tier]:
             for k in range(1, len(trace) + 1):
-                for mode in ('exc', 'kill'):
-                    jobs.append((w, k, mode, False, post))
-                    ncrash += 1
-                    if trace[k - 1][0] == 'write':
-                        jobs.append((w, k, mode, True, post))
-                        ncrash += 1
+                jobs.append((w, k, 'both', False, post))
+                if trace[k - 1][0] == 'write':
+                    jobs.append((w, k, 'both', True, post))
     ctxm = multiprocessing.get_context('fork')
     with ctxm.Pool(NPROC) as pool:
         results = pool.map(_worker, jobs, chunksize=1)
     best = {}
-    nontrivial = 0
+    cases = nontrivial = distinct = 0
     for r in results:
-        if r['args'][1] is None or r['hit'] is not None:
-            nontrivial += 1
+        cases += r['cases']
+        nontrivial += r['nontrivial']
+        distinct += r['distinct']
         for f in r['fails']:
             key = (f['fid'], f['clause'])
             if key not in best or _case_size(f['case']) < _case_size(best[key]['case']):
                 best[key] = f
     fails = sorted(best.values(), key=lambda f: (f['fid'], f['clause']))
+    mid = jobs[nhappy + (len(jobs) - nhappy) // 2]
     return {
-        'cases': len(jobs),
+        'cases': cases,
         'nontrivial': nontrivial,
         'bound': (
-            f'{len(jobs) - ncrash} fault-free workloads (<= 9 entries A,A2,B,Bx,C,D,E,F,L of the pheno model over 3 '
-            f'datasets, every one of {len(CTX_MESSAGES)} log messages and {len(ANNOTATIONS)} annotations singly and in '
+            f'{nhappy} fault-free workloads (9 entries A,A2,B,Bx,C,D,E,F,L of the pheno model over 3 '
+            f'datasets, each of {len(CTX_MESSAGES)} log messages and {len(ANNOTATIONS)} annotations singly and in '
             f'sequence) + {len(_crash_workloads(tier))} crash workload(s) of <= 4 store/retrieve operations over 3 '
             f'models (two sharing a dataset) with log/annotation writes: EVERY mutating file-system operation '
             f'k=1..N (N={opcounts}) x {{exception, process death}} x {{before the operation, torn half-written '
-            f'file for content writes}} x {len(_POST_ORDERS[tier])} order(s) of follow-up stores, each followed by '
-            f'restart with fresh objects, reads, stores of other models and a retry'
+            f'file for content writes}} x {len(_POST_ORDERS[tier])} order(s) of follow-up stores; after each crash '
+            f'restart with fresh objects, reads, stores of other models, retry (evaluated once per distinct '
+            f'resulting directory tree: {distinct} trees)'
         ),
-        'samples': [_short(j[:4], 200) for j in (jobs[0], jobs[len(jobs) // 2], jobs[-1])],
+        'samples': [_short(j[:4], 240) for j in (jobs[1], mid, jobs[-1])],
         'fails': fails,
     }
 
